@@ -67,7 +67,24 @@ mut("c17_i_hutch_biased_scale", "C17", "Hutchinson divides by (n*bs - 1): biased
     [("cola/linalg/trace/diagonal_estimation.py",
       "    mean = diag_sum / (n * bs)\n    return mean, infos\n",
       "    mean = diag_sum / max(n * bs - 1, 1)\n    return mean, infos\n")])
+mut("c17_w_randn_section_exception_safe", "C17",
+    "save / reseed / draw / restore of the GLOBAL generator with try/finally: exception-safe, bit-identical single-threaded, "
+    "invisible after every call and after every crash; only something looking WHILE the draw is in flight (continuous observer, "
+    "a caller thread drawing from np.random in the window) sees the reseeded generator",
+    [("cola/backends/np_fns.py",
+      "    z = np.random.RandomState(key).randn(*shape).astype(dtype)\n",
+      "    old_state = np.random.get_state()\n    try:\n        np.random.seed(key)\n        z = np.random.randn(*shape)\n"
+      "        z = z.astype(dtype)\n    finally:\n        np.random.set_state(old_state)\n")])
 # ------------------------------------------------------------------------------------ C18
+mut("c18_w_cg_scales_b_inplace_exception_safe", "C18",
+    "run_batched_cg normalises the caller's b in place for the duration of the loop and restores it in a finally block: "
+    "exception-safe, invisible after the call and after every crash; only an observer / second caller thread looking while the "
+    "solve is in flight sees the scaled right-hand side",
+    [("cola/linalg/inverse/cg.py",
+      "    state = while_fn(cond_fun=cond, body_fun=body_fun, init_val=init_val)\n    return state[0] * mult, state[2] * mult, state[1], info\n",
+      "    b_saved = xnp.copy(b)\n    b /= xnp.where(mult == 0, 1., mult)\n    try:\n"
+      "        state = while_fn(cond_fun=cond, body_fun=body_fun, init_val=init_val)\n    finally:\n        b[...] = b_saved\n"
+      "    return state[0] * mult, state[2] * mult, state[1], info\n")])
 mut("c18_i_cg_updates_x0_inplace", "C18", "cg accumulates into the caller's x0 (matrix right-hand sides keep the alias)",
     [("cola/linalg/inverse/cg.py", "    x1 = x0 + alpha * p0\n", "    x0 += alpha * p0\n    x1 = x0\n")])
 mut("c18_j_init_lanczos_normalises_inplace", "C18", "init_lanczos normalises the caller's start block in place",
